@@ -381,6 +381,13 @@ func ruleCompositeShapes(c *core.Ctx) {
 		}
 		s := &shaper{c: c, stream: core.Canon(enc.Params[0])}
 		ts := flatten(s.seq(body, nil, map[*ssa.BasicBlock]bool{}))
+		// the case body may have been moved into a helper method of the encoder
+		if len(ts) == 1 && ts[0].Kind == "sub" && ts[0].Fn != nil && ts[0].Fn != enc && isPrivateHelper(c, ts[0].Fn) && len(ts[0].Fn.Params) > 0 {
+			enc2 := ts[0].Fn
+			inner, _ := shapeOf(c, enc2, enc2.Params[0])
+			ts = flatten(inner)
+			body = enc2.Blocks[0]
+		}
 		bad := ""
 		var rep *tok
 		for i := range ts {
@@ -426,7 +433,7 @@ func ruleCompositeShapes(c *core.Ctx) {
 				if call, ok := second.Pos, true; ok {
 					_ = call
 				}
-				for _, blk := range enc.Blocks {
+				for _, blk := range body.Parent().Blocks {
 					for _, in := range blk.Instrs {
 						if cc, ok := in.(*ssa.Call); ok && cc.Pos() == second.Pos {
 							for _, a := range cc.Call.Args {
